@@ -10,36 +10,49 @@ import (
 
 func init() { props["C06"] = propC06; props["C17"] = propC17 }
 
-// replayGuarded: call x is dominated by the `isReplay == false` edge of IsReplayTransaction(tx, batch.Entry.Hash).
-func replayGuarded(c *Ctx, f *ssa.Function, x ssa.CallInstruction) (bool, string) {
-	for _, rc := range findCalls(f, "pegnet.Pegnet.IsReplayTransaction") {
-		call := rc.(*ssa.Call)
+// replayGuarded: call x is dominated by the `isReplay == false` edge of IsReplayTransaction(tx, batch.Entry.Hash),
+// made in x's function or in a verdict helper split off from it.
+var replaySpec = &guardSpec{
+	callee: "pegnet.Pegnet.IsReplayTransaction",
+	good: func(c *Ctx, call *ssa.Call) []*ssa.BasicBlock {
+		var out []*ssa.BasicBlock
 		var res ssa.Value
-		for _, rf := range *call.Referrers() {
-			if ex, ok := rf.(*ssa.Extract); ok && ex.Index == 0 {
-				res = ex
+		if call.Referrers() != nil {
+			for _, rf := range *call.Referrers() {
+				if ex, ok := rf.(*ssa.Extract); ok && ex.Index == 0 {
+					res = ex
+				}
 			}
 		}
-		if res == nil || !instrDominates(call, x) {
-			continue
+		if res == nil {
+			return nil
 		}
-		if !strings.HasSuffix(typePath(call.Call.Args[2]), "Entry.Hash") {
-			return false, "the replay check is not keyed by the batch's entry hash"
-		}
-		for _, b := range f.Blocks {
+		for _, b := range call.Parent().Blocks {
 			cond, tb, fb := condEdge(b)
 			if cond == nil {
 				continue
 			}
-			var notReplay *ssa.BasicBlock
 			if cond == res {
-				notReplay = fb
+				out = append(out, fb)
 			} else if u, ok := cond.(*ssa.UnOp); ok && u.Op == token.NOT && u.X == res {
-				notReplay = tb
+				out = append(out, tb)
 			}
-			if notReplay != nil && blockOrDom(notReplay, x.Block()) {
-				return true, ""
-			}
+		}
+		return out
+	},
+	accept: func(c *Ctx, call *ssa.Call, _ ssa.Value) bool {
+		return strings.HasSuffix(typePath(call.Call.Args[2]), "Entry.Hash")
+	},
+	hasBool: true, boolIdx: 0, passBool: false,
+}
+
+func replayGuarded(c *Ctx, f *ssa.Function, x ssa.CallInstruction) (bool, string) {
+	if c.guardedByOutcome(x, nil, replaySpec, 0) {
+		return true, ""
+	}
+	for _, rc := range findCalls(f, "pegnet.Pegnet.IsReplayTransaction") {
+		if call, ok := rc.(*ssa.Call); ok && instrDominates(call, x) && !replaySpec.accept(c, call, nil) {
+			return false, "the replay check is not keyed by the batch's entry hash"
 		}
 	}
 	return false, "not dominated by the not-a-replay edge of IsReplayTransaction"
@@ -98,43 +111,13 @@ func propC06(c *Ctx, r *Report) {
 	eff := computeEffects(c)
 	runErrflow(c, eff, r, map[*ssa.Function]bool{irt: true}, "C06-R4/replay-check-errors", false)
 
-	r.rule("C06-R5/insert-only", 4, "holding and history rows are plain inserts on uniquely keyed tables")
-	for _, tn := range []string{"pn_transaction_batch_holding", "pn_history_txbatch", "pn_history_transaction"} {
-		t := cat.Tables[tn]
-		keyed := t != nil
-		if t != nil {
-			keyed = false
-			for _, u := range t.Uniques {
-				for _, col := range u {
-					if col == "entry_hash" {
-						keyed = true
-					}
-				}
-			}
-		}
-		r.check(keyed, "C06-R5/insert-only", tn+" uniquely keyed by entry_hash", "-", "", tn+" has no unique key containing entry_hash")
-		ordn := newOrdinals()
-		for _, st := range cat.Stmts {
-			if st.Table != tn || !st.isWrite() || st.Verb == "CREATE" || st.Verb == "CREATE-INDEX" {
-				continue
-			}
-			if !c.RSync[st.Fn] {
-				continue
-			}
-			key := fmt.Sprintf("%s %s in %s", tn, st.Verb, fname(st.Fn))
-			cons := fmt.Sprintf("%s %s", key, ord(ordn.next(key)))
-			switch {
-			case tn == "pn_transaction_batch_holding" && st.Verb != "INSERT":
-				r.viol("C06-R5/insert-only", cons, c.ipos(st.Site), "the holding table is modified by "+st.Verb+": a held conversion could be considered again or dropped")
-			case st.Verb == "INSERT" && st.Conflict != "":
-				r.viol("C06-R5/insert-only", cons, c.ipos(st.Site), "INSERT "+st.Conflict+": a second copy of an entry whose first copy is pending or was rejected is filed (or overwrites the first) instead of being refused; the replay guard only knows executed entries, so the copy can change the ledger")
-			case st.Verb == "INSERT" || st.Verb == "UPDATE":
-				r.ok("C06-R5/insert-only", cons, c.ipos(st.Site), "plain "+st.Verb)
-			default:
-				r.viol("C06-R5/insert-only", cons, c.ipos(st.Site), "unexpected "+st.Verb)
-			}
-		}
-	}
+	ruleInsertOnly(c, r, cat, "C06-R5/insert-only")
+
+	// considered exactly once (lower half): the window loop visits every height and every batch of it
+	r.rule("C06-R10/window-complete", 3, "the holding window is walked to its end")
+	ruleLoopCompletes(c, r, "C06-R10/window-complete", hold, "pegnet.Pegnet.SelectTransactionBatchesInHoldingAtHeight", "every height of the holding window is scanned by the first rated block after it")
+	ruleLoopCompletes(c, r, "C06-R10/window-complete", hold, "node.Pegnetd.applyTransactionBatch", "every held batch of a height is considered")
+	ruleLoopCompletes(c, r, "C06-R10/window-complete", c.fn("node.Pegnetd.ApplyTransactionBlock"), "fat2.NewTransactionBatch", "every entry of the block is looked at")
 
 	// considered exactly once: the holding window is [last rated height, executing height), shared with C07
 	ruleHoldingWindow(c, r, "C06-R7/holding-window")
